@@ -516,7 +516,8 @@ impl ImageHeader {
         }
         w.bool(self.default_m);
         if !self.default_m {
-            if self.xyb_encoded {
+            // xyb_encoded defaults to true when the metadata is all_default
+            if self.all_default || self.xyb_encoded {
                 self.opsin_inverse_matrix.write(w);
             }
             w.write(3, self.cw_mask as u64);
@@ -768,7 +769,7 @@ impl FrameHeader {
 
     /// Frame dimensions before upsampling / after crop.
     pub fn frame_size(&self, img: &ImageHeader) -> (u32, u32) {
-        if self.have_crop {
+        if self.eff_have_crop() {
             (self.width, self.height)
         } else {
             (img.size.width, img.size.height)
@@ -776,17 +777,32 @@ impl FrameHeader {
     }
 
     pub fn is_full_frame(&self, img: &ImageHeader) -> bool {
-        if !self.have_crop {
+        if !self.eff_have_crop() {
             return true;
         }
-        self.x0 <= 0
-            && self.y0 <= 0
-            && (self.x0 as i64 + self.width as i64) >= img.size.width as i64
-            && (self.y0 as i64 + self.height as i64) >= img.size.height as i64
+        let (x0, y0) = if self.frame_type == FT_REFERENCE_ONLY { (0, 0) } else { (self.x0, self.y0) };
+        x0 <= 0
+            && y0 <= 0
+            && (x0 as i64 + self.width as i64) >= img.size.width as i64
+            && (y0 as i64 + self.height as i64) >= img.size.height as i64
     }
 
     pub fn normal_frame(&self) -> bool {
         self.frame_type == FT_REGULAR || self.frame_type == FT_SKIP_PROGRESSIVE
+    }
+
+    /// is_last as the format reads it back: only coded for normal frames, default `frame_type == Regular`.
+    pub fn eff_is_last(&self) -> bool {
+        if self.normal_frame() {
+            self.is_last
+        } else {
+            self.frame_type == FT_REGULAR
+        }
+    }
+
+    /// have_crop is not coded for LF frames.
+    pub fn eff_have_crop(&self) -> bool {
+        self.have_crop && self.frame_type != FT_LF
     }
 
     /// Whether save_before_ct is signalled explicitly.
@@ -795,8 +811,11 @@ impl FrameHeader {
             return false;
         }
         let full = self.is_full_frame(img);
-        let resets_canvas = full && self.blending_info.mode == BLEND_REPLACE;
-        let can_reference = !self.is_last && (self.duration == 0 || self.save_as_reference != 0);
+        let normal = self.normal_frame();
+        let mode = if normal { self.blending_info.mode } else { BLEND_REPLACE };
+        let duration = if normal && img.animation.is_some() { self.duration } else { 0 };
+        let resets_canvas = full && mode == BLEND_REPLACE;
+        let can_reference = !self.eff_is_last() && (duration == 0 || self.save_as_reference != 0);
         self.frame_type == FT_REFERENCE_ONLY || (self.normal_frame() && resets_canvas && can_reference)
     }
 
@@ -813,8 +832,9 @@ impl FrameHeader {
             w.bool(self.do_ycbcr);
         }
         let use_lf = self.flags & FLAG_USE_LF_FRAME != 0;
+        let do_ycbcr = self.do_ycbcr && !img.xyb_encoded;
         if !use_lf {
-            if self.do_ycbcr {
+            if do_ycbcr {
                 for v in self.jpeg_upsampling {
                     w.write(2, v as u64);
                 }
@@ -839,7 +859,7 @@ impl FrameHeader {
         } else {
             w.bool(self.have_crop);
         }
-        if self.have_crop {
+        if self.eff_have_crop() {
             const DD: [D; 4] = [D::Bits(8), D::BitsOffset(11, 256), D::BitsOffset(14, 2304), D::BitsOffset(30, 18688)];
             if self.frame_type != FT_REFERENCE_ONLY {
                 u32f(w, sel, "x0", DD, crate::entropy::pack_signed(self.x0));
@@ -862,7 +882,7 @@ impl FrameHeader {
             }
             w.bool(self.is_last);
         }
-        if self.frame_type != FT_LF && !self.is_last {
+        if self.frame_type != FT_LF && !self.eff_is_last() {
             w.write(2, self.save_as_reference as u64);
         }
         if self.save_before_ct_signalled(img) {
